@@ -14,7 +14,11 @@ const P: &str = "C12";
 pub fn gen(seed: u64, tier: Tier) -> ScenarioSpec {
     let mut rng = Rng::new(seed);
     let cfg = GenCfg { allow_large: tier == Tier::Thorough, ..Default::default() };
-    let rec = gen::gen_recorder(&mut rng, &cfg);
+    let mut rec = gen::gen_recorder(&mut rng, &cfg);
+    if rng.chance(1, 6) {
+        // the payload table may declare events that never occur (a recorder built with support it does not use)
+        rec.extras.phantom = super::c17::gen_phantom(&mut rng, (rec.version[0], rec.version[1]));
+    }
     let len = gen::approx_len(&rec);
     let mut spec = gen::base_spec(P, "S2", seed, rec);
     spec.api = Api::Incremental;
